@@ -41,7 +41,8 @@ def gen_dag(rng):
                               [('cxy', '%s %s' % (fmt(dy(rng, -20, 40)), fmt(dy(rng, -20, 40))))]])
         else:
             t = rng.choice(els)[0]; deps.append(t)
-            form = rng.below(10)
+            form = rng.below(12)
+            if form >= 10: form = 8         # relative sizes more often
             if form < 4:
                 pos = [('xy', '#%s|%s%s' % (t, rng.choice('hHvV'), rng.choice(['', ' 2', ' 1.5', ' -1'])))]
             elif form < 7:
@@ -50,7 +51,7 @@ def gen_dag(rng):
                 t2 = rng.choice(els)[0]; deps.append(t2)
                 pos = [('x', '#%s~%s' % (t, rng.choice(['x2', 'cx', 'x']))), ('y', '#%s~%s' % (t2, rng.choice(['y2', 'cy', 'y'])))]
             elif form < 9 and name == 'rect':
-                t2 = rng.choice(els)[0]; deps.append(t2)
+                t2 = rng.choice([e for e in els if e[1] == 'rect'] or els)[0]; deps.append(t2)
                 pos = [('xy', '%s %s' % (fmt(dy(rng, -20, 40)), fmt(dy(rng, -20, 40))))]
                 size = [('wh', '#%s%s' % (t2, rng.choice(['', ' 50%', ' 2'])))]
                 if rng.chance(0.5):      # a size delta on top of a size that is itself a reference
@@ -61,7 +62,7 @@ def gen_dag(rng):
                 pos = [('surround', ' '.join('#' + x for x in ts))] + ([('margin', rng.choice(['1', '2 3', '10%']))] if rng.chance(0.5) else [])
                 size = [] if name == 'rect' else size[:0]
                 name = 'rect'
-        if name == 'rect' and size and not any(k.startswith('d') for k, _ in size) and rng.chance(0.12):
+        if name == 'rect' and size and not any(k.startswith('d') for k, _ in size) and rng.chance(0.3):
             size = size + [rng.choice([('dwh', '2 1'), ('dw', '1.5'), ('dh', '2')])]
         attrs = [('id', eid)] + pos + size
         if rng.chance(0.2):
@@ -219,8 +220,11 @@ def run(ctx):
                     diff = '; '.join('%s: %s vs %s' % (k, ref[1].get(k), g[1].get(k)) for k in sorted(set(ref[1]) | set(g[1])) if ref[1].get(k) != g[1].get(k))[:600]
                 yield {'kind': 'oracle', 'what': 'geometry depends on document order: order %s of %s differs from order %s (%s)' % (c.meta['order'], c.meta['doc'][:500], first.meta['order'], diff or (g[0], ref[0])),
                        'case': c.to_json(), 'observed': g[1] if g[0] == 'ERR' else diff, 'expected': 'same geometry as ' + first.meta['doc'][:500],
-                       'k3': k3_config(els, c.meta['order']) and g[0] == 'OK' and as_model(i) and as_model(ids[0])}    # K3 explains a silent wrong result, never a failure
-                if not (k3_config(els, c.meta['order']) and g[0] == 'OK' and as_model(i) and as_model(ids[0])):
+                       'k3': k3_config(els, c.meta['order']) and g[0] == 'OK' and as_model(i) and as_model(ids[0]),    # K3 explains a silent wrong result, never a failure
+                       # K60: a <use> whose own x / y are references, used as a reference target: some orders fail, others place it
+                       # differently (recorded behaviour: explained only where the model of that behaviour answers as the implementation does)
+                       'k60': any(e[1] == 'use' for e in els) and bool(model) and as_model(i) and as_model(ids[0])}
+                if not ((k3_config(els, c.meta['order']) and g[0] == 'OK' and as_model(i) and as_model(ids[0])) or (any(e[1] == 'use' for e in els) and bool(model) and as_model(i) and as_model(ids[0]))):
                     break
         if len(st['samples']) < 3:
             st['samples'].append({'doc': first.meta['doc'][:400], 'orders': len(ids), 'result': ref[0]})
@@ -229,6 +233,8 @@ def run(ctx):
 def classify(v, known):
     if v.get('kind') == 'oracle' and v.get('k3'):
         return 'K3'
+    if v.get('kind') == 'oracle' and v.get('k60') and any(k.get('id') == 'K60' for k in known):
+        return 'K60'
     return None
 
 
